@@ -7,6 +7,8 @@
 use vstd::prelude::*;
 verus! {
 global size_of usize == 8;
+//@extract consts src/blockchain/parser/reader.rs
+//@end
 
 pub mod io {
     use vstd::prelude::*;
